@@ -676,8 +676,14 @@ func (s *Service) ProcessRequest(ctx *core.Context, m map[string]interface{}, ou
 		}
 
 		code, _, err := GetStringParam(m, "code", true)
+		if err != nil {
+			return nil, err
+		}
 
 		encoding, provided, err := GetStringParam(m, "encoding", false)
+		if err != nil {
+			return nil, err
+		}
 		if provided {
 			code, err = core.DecodeString(encoding, code)
 			if err != nil {
@@ -893,6 +899,9 @@ func (s *Service) ProcessRequest(ctx *core.Context, m map[string]interface{}, ou
 		}
 
 		id, _, err := GetStringParam(m, "id", false)
+		if err != nil {
+			return nil, err
+		}
 
 		// ToDo: Not this.
 		js, err := json.Marshal(fact)
@@ -1113,6 +1122,9 @@ func (s *Service) ProcessRequest(ctx *core.Context, m map[string]interface{}, ou
 		}
 
 		id, _, err := GetStringParam(m, "id", false)
+		if err != nil {
+			return nil, err
+		}
 
 		// ToDo: Not this.
 		js, err := json.Marshal(rule)
